@@ -1407,7 +1407,7 @@ class CallMixin:
             return self.bi_replace(node)
         if fq in ("dataclasses.field",):
             return self.bi_field(node)
-        spec = self.specs.module_fn(fq)
+        spec = self.specs.module_fn(fq, next((fr_.module for fr_ in reversed(self.frames) if fr_.module), None))
         if spec is None and fq.split(".")[-1] in ("TimeoutError", "CancelledError") and fq.startswith("asyncio."):
             # asyncio.TimeoutError is the builtin TimeoutError (python >= 3.11)
             return self.construct(ClassRef(fq.split(".")[-1], None), args, kwargs, node)
